@@ -1006,7 +1006,7 @@ class Constraints:
     @classmethod
     def lax_ge(cls, value, ge):
         if value < ge:
-            return ge
+            return cls._lax_bound(value, ge)
         return value
 
     @classmethod
@@ -1024,8 +1024,16 @@ class Constraints:
     @classmethod
     def lax_le(cls, value, le):
         if value > le:
-            return le
+            return cls._lax_bound(value, le)
         return value
+
+    @classmethod
+    def _lax_bound(cls, value, bound):
+        # bounds may be declared in a tolerated numeric type (int bound for a float / Decimal rule)
+        # the clamped result must keep the type of the value
+        if isinstance(value, NUM_TYPES) and type(bound) is not type(value):
+            return type(value)(bound)
+        return bound
 
     @classmethod
     def length(cls, value, lg):
